@@ -287,6 +287,33 @@ pub fn c09_instances(_tier: Tier) -> Vec<Instance> {
 
 /// The flag reaches the connection from the builder: connect over loopback TCP to a server that
 /// sends a VER with the given version.
+fn builder_gate_case_udp(tokio_impl: bool, verify: Option<bool>, version: u8) -> Result<String, String> {
+    let peer = std::net::UdpSocket::bind("127.0.0.1:0").map_err(|e| e.to_string())?;
+    peer.set_read_timeout(Some(std::time::Duration::from_secs(2))).unwrap();
+    let mut b = insim::udp(peer.local_addr().unwrap(), None);
+    if let Some(v) = verify { b = b.verify_version(v); }
+    let frame = f_ver(true, version);
+    let mut buf = [0u8; 256];
+    if tokio_impl {
+        let rt = tokio::runtime::Builder::new_current_thread().enable_io().enable_time().build().unwrap();
+        rt.block_on(async move {
+            let mut conn = tokio::time::timeout(std::time::Duration::from_secs(2), b.connect_async()).await.map_err(|_| "connect timed out".to_string())?.map_err(|e| e.to_string())?;
+            let (_, from) = peer.recv_from(&mut buf).map_err(|e| e.to_string())?;
+            // the client binds 0.0.0.0: answer to the loopback address with its port
+            let to = std::net::SocketAddr::from(([127, 0, 0, 1], from.port()));
+            let _ = peer.send_to(&frame, to).map_err(|e| e.to_string())?;
+            let r = tokio::time::timeout(std::time::Duration::from_secs(2), conn.read()).await.map_err(|_| "read timed out".to_string())?;
+            Ok(crate::e2::world::render(&r))
+        })
+    } else {
+        let mut conn = b.connect_blocking().map_err(|e| e.to_string())?;
+        let (_, from) = peer.recv_from(&mut buf).map_err(|e| e.to_string())?;
+        let to = std::net::SocketAddr::from(([127, 0, 0, 1], from.port()));
+        let _ = peer.send_to(&frame, to).map_err(|e| e.to_string())?;
+        Ok(crate::e2::world::render(&conn.read()))
+    }
+}
+
 fn builder_gate_case(tokio_impl: bool, verify: Option<bool>, version: u8) -> Result<String, String> {
     use std::io::Write;
     let l = std::net::TcpListener::bind("127.0.0.1:0").map_err(|e| e.to_string())?;
@@ -318,13 +345,14 @@ pub fn c09(tier: Tier, replay: Option<String>) -> i32 {
                 for version in [9u8, 8, 0, 10, 255] {
                     let gate = verify.unwrap_or(true);
                     let want_ok = !gate || version == 9;
-                    match crate::report::guard(|| builder_gate_case(tokio_impl, verify, version)) {
+                  for udp in [false, true] {
+                    match crate::report::guard(|| if udp { builder_gate_case_udp(tokio_impl, verify, version) } else { builder_gate_case(tokio_impl, verify, version) }) {
                         Ok(Ok(r)) => {
                             let ok = if want_ok { r.starts_with("Ok(Ver(") } else { r == format!("Err(IncompatibleVersion({version}))") };
                             if !ok {
                                 println!("VIOLATION property=C09 replay=/verif/replays/C09/builder-gate.json");
-                                println!("  signature: C09|builder-gate|{}", if tokio_impl { "tokio" } else { "blocking" });
-                                println!("  witness:   connect_{} with verify_version {verify:?} and a VER of version {version}: read returned {}", if tokio_impl { "async" } else { "blocking" }, r.chars().take(80).collect::<String>());
+                                println!("  signature: C09|builder-gate|{}|{}", if udp { "udp" } else { "tcp" }, if tokio_impl { "tokio" } else { "blocking" });
+                                println!("  witness:   {} connect_{} with verify_version {verify:?} and a VER of version {version}: read returned {}", if udp { "udp" } else { "tcp" }, if tokio_impl { "async" } else { "blocking" }, r.chars().take(80).collect::<String>());
                                 let _ = std::fs::create_dir_all("/verif/replays/C09");
                                 let _ = std::fs::write("/verif/replays/C09/builder-gate.json", json!({"property": "C09", "site": "builder-gate", "tokio": tokio_impl, "verify": verify, "version": version}).to_string());
                                 return 1;
@@ -332,12 +360,13 @@ pub fn c09(tier: Tier, replay: Option<String>) -> i32 {
                         },
                         other => { eprintln!("MACHINERY: builder gate case failed: {other:?}"); return 4; },
                     }
+                  }
                 }
             }
         }
     }
     finish("C09", tier, replay, c09_instances(tier),
-        "instances: every InSim version value 0..=255 x verification {on, off} x {blocking, tokio} x 4 positions in a packet history x both modes, delivered whole and byte by byte; histories with two VER packets (VER 9 / VER 8 before or after every version); every non-version kind with verification on; 30 loopback connects through the Builder (default / verify_version(true) / verify_version(false) x 5 versions x blocking/tokio); oracle: a VER is delivered iff (not verifying or version = 9), otherwise IncompatibleVersion(v) with that v; later packets are still delivered",
+        "instances: every InSim version value 0..=255 x verification {on, off} x {blocking, tokio} x 4 positions in a packet history x both modes, delivered whole and byte by byte; histories with two VER packets (VER 9 / VER 8 before or after every version); every non-version kind with verification on; 60 loopback connects through the Builder (tcp / udp x default / verify_version(true) / verify_version(false) x 5 versions x blocking/tokio); oracle: a VER is delivered iff (not verifying or version = 9), otherwise IncompatibleVersion(v) with that v; later packets are still delivered",
         vec!["the builder-gate connects run before the search; a failure there is reported at once".into()])
 }
 
